@@ -28,6 +28,13 @@ layer of `Model/FramesStyled.lean` (`padding_style`, `panel_border_style`, `pane
 about them (`panel_border_style` takes the title as an arbitrary oracle).  All seven code-variant flags
 (`Frames.Variant`, `SVariant`) are repaired in /repo (fixes a9def3a, 8879061, f5f2be9, f7ecf83, 63e086e, 0e1edf7,
 a442cbd); the `old_…` theorems are the witnesses for rich 9.10.0 as found.
+
+Documented non-claim.  Every function here is a pure function of the object's options as they are when it
+is rendered.  One frame edits its own options while rendering: a `Rule` given a `Text` title works on that
+`Text` in place (line feeds replaced, tabs expanded, truncated to the width), so a later, wider render of
+the same `Rule` shows the truncated title.  Every render still fills its width exactly (`rule_exact`
+applies to the title as it then is), which is all the statement asks; "a second render equals a fresh
+object's render" is not claimed (the harness counts it as an observation only).
 -/
 namespace RichModel.C08
 open RichModel RichModel.Frames
